@@ -96,3 +96,25 @@ def ps_hypotheses(row):
         if e.get("depth_after", 0) != 0:
             out.append("depth counter %d left after parseStatement at %d" % (e["depth_after"], p))
     return out
+
+
+def err_location_mismatches(row):
+    """the tie of C12_errors_located_in_own_segment's [err_loc]: every error recovery reports carries the line/column
+    of token p' where the recorded parseStatement table says  ps(start) = SErr c p'  (positions of the tokens of the
+    text that was passed in, taken by the harness itself).  Returns descriptions of mismatches."""
+    out = []
+    tp, ps = row.get("tok_pos"), row.get("ps")
+    rec = entry(row, "gosqlx.ParseWithRecovery")
+    if not tp or not ps or rec is None or rec.get("panic"):
+        return out
+    for e in rec.get("rec_errs") or []:
+        s = e.get("idx", -1)
+        if not (0 <= s < len(ps)) or ps[s]["ok"] or ps[s].get("panic"):
+            continue    # reported by the model correspondence (error list differs)
+        p2 = ps[s]["end"]
+        want = tuple(tp[p2]) if 0 <= p2 < len(tp) else (0, 0)
+        got = (e.get("line", 0), e.get("col", 0))
+        if got != want:
+            out.append("error of the statement at token %d: located at line %d column %d, the token under the cursor (token %d) is at line %d column %d"
+                       % (s, got[0], got[1], p2, want[0], want[1]))
+    return out
